@@ -15,6 +15,7 @@ extern "C" void h_hostile() {
     // second object header: offsets relative to 176 + 48
     unsigned char * o = img + 176 + 48;
     uint32_t osz = vp_u32("objectSize"); memcpy(o + 8, &osz, 4);
+    uint16_t hsz = vp_u16("headerSize"); memcpy(o + 4, &hsz, 2);
     static const uint32_t types[] = {1, 86, 65, 200, 0, 10};
     uint32_t ot = types[vp_choose(6, "objectType")]; memcpy(o + 12, &ot, 4);
     vp_fs_put("a.blf", img, n);
